@@ -49,7 +49,7 @@ def run(ctx):
     if len(files) < 100:
         ctx.inconc("seed corpus too small: %d" % len(files))
         return
-    n = ctx.n(480, 200000)
+    n = ctx.n(480, 6000)   # ~0.2 s of wall time per execution on 16 cores (ASan start-up of mfront: 1 s)
     ctx.cov["rule"] = ("execution = (seed file, mutation kind, tool in {mfront x interface, mfront-query x 2 queries}); distinct = distinct sha1 of the "
                        "mutated input + command line; non-trivial = the input differs from its seed file")
     ctx.cov.update({"seed_files": len(files), "dsls": len(dsls), "dictionary_keywords": len(dictionary)})
@@ -93,7 +93,7 @@ def run(ctx):
         pat = re.compile(rb"@(?:DSL|Parser)\s+" + re.escape(dsl.encode()) + rb"\s*[;{]")
         real = next((d for f, d in texts if pat.search(d) and len(d) < 20000), None)
         head = b"@DSL " + dsl.encode() + b";"
-        for label, data in fuzz.keyword_sweep(gs, per_dsl[dsl], (head, real if real is not None else head + b"\n"), ctx.thorough):
+        for label, data in fuzz.keyword_sweep(gs, per_dsl[dsl], (head, real if real is not None else head + b"\n"), ctx.thorough, nshapes=1):
             sweep.append((dsl, label, data))
     if not ctx.thorough:
         # quick: a third of the (DSL, keyword) pairs, rotating with the seed (the DSLs share most handlers through their base classes)
